@@ -561,6 +561,8 @@ example : probe (capHeaders exampleCfg) = Spec.capsOf exampleCfg :=
     simp only [exampleCfg, List.mem_cons, List.mem_nil_iff, or_false] at hn
     rcases hn with rfl | rfl <;> exact ⟨by decide, by decide⟩)
 example : lookupExact (capHeaders exampleCfg) Spec.hMaxResponseBytes = none := by decide
+/-- authentication that depends on proxy-injected headers, proof not required: the proof header stays absent -/
+example : lookupExact (capHeaders { exampleCfg with proxyHint := true }) Spec.hProxyProofRequired = none := by decide
 example : lookupExact (capHeaders exampleCfg) Spec.hStickyEchoHeaders = some ['X', '-', 'A', ',', ' ', 'f', 'l', 'y'] := by decide
 example : ∀ n ∈ exampleCfg.stickyEcho, Spec.TokenName n := by
   intro n hn
